@@ -27,11 +27,16 @@ def _tolist(a):
         pass
     a = np.asarray(a)
     if a.dtype.kind == "M":
-        return [None if np.isnat(v) else int(v.astype("datetime64[s]").astype("int64")) for v in a.ravel()]
+        return [None if np.isnat(v) else tnorm(int(v.astype("datetime64[ms]").astype("int64")) / 1000) for v in a.ravel()]
     out = []
     for v in a.ravel().tolist():
         out.append(None if (v is None or (isinstance(v, float) and v != v)) else v)
     return out
+
+
+def tnorm(v):
+    """times as int when whole seconds, float (multiple of 1/8 s) otherwise - so that both sides of a comparison agree"""
+    return int(v) if float(v) == int(v) else float(v)
 
 
 def vf_probe_test(inp, tinp=None, zinp=None, lat=None, lon=None, tag=None):
@@ -59,6 +64,9 @@ def table(draw, max_rows=25, stream_names=None, force_axes=None):
     n = draw(st.one_of(st.integers(0, max_rows), st.sampled_from([0, 1, 2, 3])))
     t, _ = draw(gen.time_axis(max(n, 1), steps=[60, 60, 3600, 86400, 7, 900]))
     t = t[:n]
+    if draw(st.integers(0, 3)) == 0:
+        # sub-second sampling (multiples of 1/8 s); strictly increasing is preserved because every step is >= 7 s
+        t = [tnorm(v + draw(st.sampled_from([0.0, 0.125, 0.5, 0.875]))) for v in t]
     names = stream_names or draw(st.sampled_from([["temp"], ["temp", "sal"], ["temp", "sal", "o2"]]))
     cols = {}
     for nm in names:
@@ -81,6 +89,8 @@ def table(draw, max_rows=25, stream_names=None, force_axes=None):
 
 
 def iso(sec):
+    if float(sec) != int(sec):
+        return (dtm.datetime(1970, 1, 1) + dtm.timedelta(milliseconds=int(round(float(sec) * 1000)))).isoformat()
     return (dtm.datetime(1970, 1, 1) + dtm.timedelta(seconds=int(sec))).isoformat()
 
 
@@ -210,6 +220,8 @@ def np_col(xs):
 
 
 def np_time(t):
+    if any(float(v) != int(v) for v in t):
+        return np.array([int(round(float(v) * 1000)) for v in t], dtype="int64").astype("datetime64[ms]").astype("datetime64[ns]")
     return np.array(t, dtype="int64").astype("datetime64[s]").astype("datetime64[ns]")
 
 
@@ -248,7 +260,7 @@ def make_xr(tbl, layout="coord"):
     import xarray as xr
     n = tbl["n"]
     dv = {}
-    dim = "time" if (layout in ("coord", "coord_axes") and tbl["t"] is not None) else "obs"
+    dim = "time" if (layout in ("coord", "coord_axes", "other_dim") and tbl["t"] is not None) else "obs"
     for k, v in tbl["cols"].items():
         dv[k] = (dim, np_col(v))
     for k, v in tbl["axes"].items():
@@ -259,6 +271,10 @@ def make_xr(tbl, layout="coord"):
             coords["time"] = np_time(tbl["t"])
         else:
             dv["time"] = (dim, np_time(tbl["t"]))
+    if layout == "other_dim":
+        # z / lat / lon are plain variables on another dimension of the same length ("not specifically connected")
+        for k in list(tbl["axes"]):
+            dv[k] = ("obs", dv[k][1])
     if layout == "coord_axes":
         # z / lat / lon as non-index coordinates along the time dimension (a common CF layout)
         for k in list(tbl["axes"]):
@@ -275,7 +291,7 @@ def window_obj(w, style):
         v = w.get(k)
         if v is None:
             continue
-        out[k] = iso(v) if style == "iso" else dtm.datetime(1970, 1, 1) + dtm.timedelta(seconds=int(v))
+        out[k] = iso(v) if style == "iso" else dtm.datetime(1970, 1, 1) + dtm.timedelta(milliseconds=int(round(float(v) * 1000)))
     return out
 
 
